@@ -53,23 +53,33 @@ def JpegLsRepresentable (len w h c p near : Int) : Prop :=
 /-- powers of two 2^lo … 2^hi -/
 def pow2s (lo hi : Nat) : List Int := (List.range (hi + 1 - lo)).map (fun k => (2 : Int) ^ (k + lo))
 
+/-- the tile extent along one axis: the argument, 0 meaning the whole image (T.800 A.5.1 XTsiz/YTsiz) -/
+def tileExtent (extent tile : Int) : Int := if tile = 0 then extent else tile
+
+/-- tiles along one axis of an image at origin 0: ⌈extent / tile extent⌉ (T.800 B.3) -/
+def tilesAlong (extent tile : Int) : Int := (extent + tileExtent extent tile - 1) / tileExtent extent tile
+
 /-- JPEG 2000 (T.800 A.5.1 SIZ, A.6.1 COD): 32-bit image size, tile size 0 (= whole image) or
-    positive, code-block width/height 2^2..2^10 with area ≤ 4096 (xcb+ycb ≤ 12), precinct size 0
+    positive and within the 32-bit XTsiz/YTsiz fields, at most 65535 tiles (A.4.2: Isot is a 16-bit
+    tile index), code-block width/height 2^2..2^10 with area ≤ 4096 (xcb+ycb ≤ 12), precinct size 0
     (= default 2^15) or a power of two 2^0..2^15 (PPx/PPy are exponents), 1..65535 layers,
     progression order 0..4; components 1..4, depth 1..16, 0..6 levels and quality 1..100 (lossy)
-    are what the library documents as supported. -/
+    are what the library documents as supported; the byte count of the source frame is a Go `int`
+    (2^63 − 1: the encoder multiplies it out in `int`) and the buffer holds it. -/
 def J2kRepresentable (p : Gen.ValidateJ2k.EncodeParams) (len : Int) : Prop :=
   (1 ≤ p.Width ∧ p.Width ≤ 4294967295) ∧ (1 ≤ p.Height ∧ p.Height ≤ 4294967295) ∧
   (1 ≤ p.Components ∧ p.Components ≤ 4) ∧ (1 ≤ p.BitDepth ∧ p.BitDepth ≤ 16) ∧
   (0 ≤ p.NumLevels ∧ p.NumLevels ≤ 6) ∧
   p.CodeBlockWidth ∈ pow2s 2 10 ∧ p.CodeBlockHeight ∈ pow2s 2 10 ∧
   p.CodeBlockWidth * p.CodeBlockHeight ≤ 4096 ∧
-  (0 ≤ p.TileWidth ∧ 0 ≤ p.TileHeight) ∧
+  (0 ≤ p.TileWidth ∧ p.TileWidth ≤ 4294967295) ∧ (0 ≤ p.TileHeight ∧ p.TileHeight ≤ 4294967295) ∧
+  tilesAlong p.Width p.TileWidth * tilesAlong p.Height p.TileHeight ≤ 65535 ∧
   (p.PrecinctWidth = 0 ∨ p.PrecinctWidth ∈ pow2s 0 15) ∧
   (p.PrecinctHeight = 0 ∨ p.PrecinctHeight ∈ pow2s 0 15) ∧
   (1 ≤ p.NumLayers ∧ p.NumLayers ≤ 65535) ∧
   (0 ≤ p.ProgressionOrder ∧ p.ProgressionOrder ≤ 4) ∧
   (p.Lossless = false → 1 ≤ p.Quality ∧ p.Quality ≤ 100) ∧
+  p.Width * p.Height * p.Components * bytesPerSample p.BitDepth ≤ 9223372036854775807 ∧
   len ≥ p.Width * p.Height * p.Components * bytesPerSample p.BitDepth
 
 instance (n : Int) : Decidable (Dim16 n) := by unfold Dim16; infer_instance
@@ -82,13 +92,30 @@ instance (a b c d e f : Int) : Decidable (LosslessRepresentable a b c d e f) := 
 instance (a b c d e f : Int) : Decidable (JpegLsRepresentable a b c d e f) := by
   unfold JpegLsRepresentable; infer_instance
 instance (p : Gen.ValidateJ2k.EncodeParams) (len : Int) : Decidable (J2kRepresentable p len) := by
-  unfold J2kRepresentable; infer_instance
+  unfold J2kRepresentable tilesAlong tileExtent; infer_instance
 
 /-! ## Lemmas -/
 
 theorem tdiv8 (p : Int) (h : 0 ≤ p) : Int.tdiv (p + 7) 8 = bytesPerSample p := by
   unfold bytesPerSample
   exact Int.tdiv_eq_ediv_of_nonneg (by omega)
+
+/-- Go `a <= (M / k) / h` on non-negative operands ⇒ `a * h * k ≤ M` (the `int`-overflow guard of
+    jpeg2000 `validateParams`: width ≤ MaxInt / (components · bytes) / height) -/
+theorem mul_le_of_le_tdiv_tdiv (a h k M : Int) (hM : 0 ≤ M) (hk : 0 < k) (hh : 0 < h)
+    (hle : a ≤ (Int.tdiv M k).tdiv h) : a * h * k ≤ M := by
+  rw [Int.tdiv_eq_ediv_of_nonneg hM] at hle
+  rw [Int.tdiv_eq_ediv_of_nonneg (Int.ediv_nonneg hM (by omega))] at hle
+  have h1 : a * h ≤ M / k := (Int.le_ediv_iff_mul_le hh).1 hle
+  exact (Int.le_ediv_iff_mul_le hk).1 h1
+
+/-- the Go tile count `(extent + t - 1) / t`, with `t` resolved from 0 as in `validateParams` /
+    `writeTiles`, is `tilesAlong` -/
+theorem tdiv_tiles (extent tile : Int) (he : 1 ≤ extent) (ht : 0 ≤ tile) :
+    (extent + (if tile = 0 then extent else tile) - 1).tdiv (if tile = 0 then extent else tile) =
+      tilesAlong extent tile := by
+  unfold tilesAlong tileExtent
+  exact Int.tdiv_eq_ediv_of_nonneg (by split <;> omega)
 
 theorem declared16_of_fits (v : Int) (h0 : 0 ≤ v) (h1 : v ≤ 65535) : declared16 v = v := by
   unfold declared16 Go.uwrap8 Go.shr
